@@ -238,8 +238,11 @@ def cmd_check(prop, tier):
         rc = max(rc, 1)
     for idx, h in agg.harness[:3]:
         print(f"HARNESS-ERROR: run idx {idx}: {h[:600]}")
-    if agg.harness:
-        rc = max(rc, 2)
+    if agg.harness and rc != 1:
+        # a reproduced violation is the stronger statement: exit 1 with its replay file; the
+        # HARNESS-ERROR lines above still say that some runs were lost (e.g. a worker that
+        # the code under test brought down)
+        rc = 2
     guard_aborts = sum(v for k, v in agg.aborts.items() if k != "dependency_abort")
     if agg.runs and guard_aborts > 0.2 * agg.runs:
         print(f"COVERAGE-WARNING: {guard_aborts} of {agg.runs} runs were ended early by guards {agg.aborts}: another property is broken on this tree (or the harness is); this check explored little")
